@@ -39,6 +39,7 @@ import (
 	"sort"
 	"strings"
 	"time"
+	"verifmc/vorder"
 
 	"verifmc/core"
 
@@ -298,6 +299,7 @@ func rewardInputs() [][]byte {
 		j(0, params.TermRewardPoolTotal),
 		j(0, big.NewInt(-5)),
 		j(4294967295, big.NewInt(1)),
+		j(3, big.NewInt(1)), j(3, big.NewInt(6)), j(3, big.NewInt(7)), j(1, big.NewInt(4)), j(2, big.NewInt(-11)),
 		[]byte("null"), []byte("{}"), []byte(`{"term":"0x0"}`), []byte(`{"term":0,"value":null}`), []byte(`{"term":0,"value":"1"`), []byte(`[1]`),
 	}
 }
@@ -417,6 +419,9 @@ func enumerate(emit func(*config)) {
 				}
 				if p != 9 {
 					g.variants = append(g.variants, variant{kind: "static", gas: gas, data: hex.EncodeToString(in)})
+				} else {
+					// on top of earlier settings: the sum over the settings is a loop over a map
+					g.variants = append(g.variants, variant{kind: "call", gas: gas, data: hex.EncodeToString(in), pre: preRewards})
 				}
 			}
 			emit(g)
@@ -511,6 +516,7 @@ func worker(i, n int) {
 
 func main() {
 	core.ParseFlags()
+	vorder.SetPolicy(1) // instrumented map loops (chain/vm/contracts.go) run in sorted order unless a case says otherwise
 	if core.Thorough() {
 		stepBudget = 200000
 	}
